@@ -46,6 +46,8 @@ RULES = [
     "parameters are the free variables of that expression (used for the kernels of host operations whose enclosing function uses slice patterns)",
     "R9 a by-value parameter `p: Vec<T>` may become `p: &[T]` when the scanner proves every use of p in the body is `p.as_slice()` or `&p` "
     "(CBMC does not terminate on the drop glue of heap-stored recursive syntax; the harness supplies `as_slice` on slices as the identity)",
+    "R10 the block of one match arm, selected by a regex on its pattern, may be copied and wrapped as the body of a function whose parameters are "
+    "the arm's pattern bindings and free variables (given by the template); an unused `_` loop pattern inside may be given a name so invariants can mention it",
     "R6 a trait-impl method may be emitted inside an inherent impl (Verus forbids requires on trait impls); its text is unchanged",
     "R7 `Self::` / `Self` may be replaced by the concrete type name when a method is lifted out of its impl (option self_ty)",
 ]
@@ -504,6 +506,83 @@ def extract_let(repo, spec, ex):
     return f'/*@@BODY {name}_{var}*/' + expr + '/*@@END*/'
 
 
+def extract_arm(repo, header, ex):
+    """`<file> :: ... :: fn f :: arm /<regex on the arm pattern>/` + options -> the block of that match arm (rule R10).
+    options:  loop <k>: <clauses>   (as for fn; loops are numbered inside the arm)
+              name_loop_var <k> <ident>   give the `_` pattern of the k-th `for` loop a name (so invariants can mention it)"""
+    lines = [l.strip() for l in header.strip().splitlines()]
+    rel, sels = _parse_path(lines[0])
+    m = re.match(r'arm\s+/(.*)/$', sels[-1])
+    if not m:
+        raise ExtractError(f'bad arm selector {sels[-1]!r}')
+    rx = m.group(1)
+    loops = {}
+    names = {}
+    proofs = []
+    cur = None
+    for l in lines[1:]:
+        if not l:
+            continue
+        lm = re.match(r'^loop\s+(\d+)\s*:\s*(.*)$', l)
+        nm = re.match(r'^name_loop_var\s+(\d+)\s+(\w+)$', l)
+        pm = re.match(r'^proof\s+/(.*)/\s*:\s*(.*)$', l)
+        if pm:
+            proofs.append([pm.group(1), pm.group(2) + '\n'])
+            cur = ('proof', len(proofs) - 1)
+        elif isinstance(cur, tuple) and cur[0] == 'proof' and not lm and not nm:
+            proofs[cur[1]][1] += l + '\n'
+        elif lm:
+            cur = int(lm.group(1))
+            loops[cur] = lm.group(2) + '\n'
+        elif nm:
+            names[int(nm.group(1))] = nm.group(2)
+            cur = None
+        elif cur is not None:
+            loops[cur] += l + '\n'
+        else:
+            raise ExtractError(f'bad arm directive line {l!r}')
+    f = _file(repo, rel)
+    try:
+        kind, name, istart, hend, iend = f.locate(sels[:-1])
+    except ScanError as e:
+        raise ExtractError(f'lost anchor: {rel} :: {" :: ".join(sels[:-1])}: {e}')
+    body_m = f.msk[hend:iend]
+    body = f.src[hend:iend]
+    found = None
+    for am in re.finditer(r'(?m)^\s*\|\s*([^\n]*?)=>\s*\{', body_m):
+        pat = body[am.start(1):am.end(1)]
+        if re.search(rx, pat):
+            if found is not None:
+                raise ExtractError(f'ambiguous arm /{rx}/ in {" :: ".join(sels[:-1])}')
+            found = am
+    if found is None:
+        raise ExtractError(f'lost anchor: arm /{rx}/ not found in {" :: ".join(sels[:-1])}')
+    o = found.end() - 1
+    c = rsscan.match_close(body_m, o)
+    block = body[o:c + 1]
+    label = f'{rel}::{"::".join(sels)}'
+    # name `_` loop variables
+    bm = rsscan.mask(block)
+    lps = rsscan.find_loops(bm, 0, len(bm))
+    inserts = []
+    for k, ident in names.items():
+        if k >= len(lps) or lps[k][0] != 'for':
+            raise ExtractError(f'{label}: name_loop_var {k}: no such `for` loop')
+        kw, kwpos, bopen, bclose = lps[k]
+        um = re.match(r'for\s+_\s+in\b', bm[kwpos:])
+        if not um:
+            raise ExtractError(f'{label}: name_loop_var {k}: loop pattern is not `_`')
+        inserts.append((('replace', kwpos, kwpos + um.end()), f'for {ident} in'))
+        ex.rewrites.append(f'{label}: unused loop pattern `_` named `{ident}` (R3)')
+    out = block
+    for pos, text in sorted(inserts, key=lambda x: x[0][1], reverse=True):
+        _, a, b = pos
+        out = out[:a] + text + out[b:]
+    out = _apply_loops(out, loops, False, proofs, ex, label)
+    ex.items.append(dict(kind='match-arm', source=rel, selector=' :: '.join(sels), sha=_sha(block), name=f'{name}_arm'))
+    return f'/*@@BODY {name}_arm*/' + out + '/*@@END*/'
+
+
 def extract_lalrpop_action(repo, spec, ex):
     """spec: `<file> :: rule <Rule> :: action <k>` -> the k-th alternative's action expression of the rule.
     Handles both `Rule: T = { alt, alt };` and the single-alternative form `Rule: T = symbols => action;`."""
@@ -577,7 +656,7 @@ def extract_lalrpop_action(repo, spec, ex):
     return dict(symbols=symbols, action=action.replace('<>', param), fallible=fallible, result_type=ty, param=param)
 
 
-_DIR = re.compile(r'/\*@(type|macro\?|macro|fn|body|expr|action|let)(?![A-Za-z])(.*?)@\*/', re.S)
+_DIR = re.compile(r'/\*@(type|macro\?|macro|fn|body|expr|action|let|arm)(?![A-Za-z])(.*?)@\*/', re.S)
 
 
 def build_unit(repo, template_text):
@@ -608,6 +687,8 @@ def build_unit(repo, template_text):
             out.append(extract_fn(repo, arg, None, ex, body_only=True))
         elif kind == 'let':
             out.append(extract_let(repo, arg.strip(), ex))
+        elif kind == 'arm':
+            out.append(extract_arm(repo, arg, ex))
         elif kind == 'expr':
             d = extract_lalrpop_action(repo, arg.strip(), ex)
             out.append(d['action'])
